@@ -7,7 +7,8 @@
 (*    between the option block / fence line and the body, skip |-> number of sibling          *)
 (*    paragraphs (2 lines each) before the inner construct, first |-> body text on the        *)
 (*    fence line, post |-> 1 if a sibling paragraph follows the inner construct inside the     *)
-(*    frame, dname |-> "note" | "epigraph" (a quote directive with an attribution line)]       *)
+(*    frame, dname |-> "note" | "epigraph" (a quote directive with an attribution line) |      *)
+(*    "container" (a directive that does not position its own output node)]                    *)
 (* M composes the line the way the code does: token.map (0-based rows of a parse unit) + the  *)
 (* lineno handed to nested_render_text (base) + 1; a directive body is a new parse unit at    *)
 (* position + body_offset (DirSplit), a ::: container at its own line, an included file at    *)
@@ -54,7 +55,7 @@ WellFormedPath(p) ==
   /\ \A n \in 1..Len(p) : p[n].first => (n = Len(p) /\ IsDir(p[n]) /\ p[n].opt = "none" /\ p[n].blanks = 0 /\ p[n].skip = 0)
   /\ \A n \in 1..Len(p) : ~IsDir(p[n]) => (p[n].opt = "none" /\ p[n].nopt = 0 /\ p[n].blanks = 0 /\ ~p[n].first /\ p[n].dname = "note")
   /\ \A n \in 1..Len(p) : p[n].first => (p[n].post = 0 /\ p[n].dname = "note")
-  /\ \A n \in 1..Len(p) : p[n].dname = "epigraph" => p[n].opt = "none"          \* docutils' quote directives take no options
+  /\ \A n \in 1..Len(p) : p[n].dname \in {"epigraph", "container"} => p[n].opt = "none"   \* (these directives are written without options)
   /\ \A n \in 1..Len(p) : (p[n].opt = "none") = (p[n].nopt = 0)
 Init == /\ path \in {p \in Paths : WellFormedPath(p)} /\ pre \in Pres /\ leaf \in Leaves
         /\ (path # <<>> /\ path[Len(path)].first => leaf = "para")
